@@ -40,5 +40,16 @@ def main(argv=None):
     return run_property(prop, mod, a.tier, seed)
 
 
+def guarded_main():
+    try:
+        return main()
+    except SystemExit:
+        raise
+    except BaseException:  # a traceback must never look like a violation (exit 1)
+        import traceback
+        print(f"ANALYSIS-ERROR: check driver failed\n{traceback.format_exc()}")
+        return 2
+
+
 if __name__ == "__main__":
-    sys.exit(main())
+    sys.exit(guarded_main())
